@@ -178,7 +178,7 @@ class dictattr(dict):
         if isinstance(value, tuple):
             return [self[v] for v in value]
         elif is_rng(value):
-            return type(self)(**{k : self[k] for k in value})
+            return type(self)({k : self[k] for k in value})
         res = self
         if value in res or not is_str(value):
             return super(dictattr, self).__getitem__(value)
